@@ -367,6 +367,26 @@ Qed.
 
 End Budgets.
 
+(* ---- which nodes consume budget ---- *)
+
+(* The code counts a node as consuming budget only if it also counts towards the pool size
+   (managed, initialized, instance not yet terminated). Under the strictest reading of "the pool's
+   nodes that are already not ready or being deleted" a deleting node that never initialized would
+   count as well; it does not (upstream's documented choice: such nodes are neither in the total
+   nor in the disrupting count). *)
+Lemma disrupting_counts_all_deleting_refuted_l :
+  exists ns p x, In x ns /\ n_pool x = p /\ n_managed x = true /\ n_deleting x = true /\ disrupting p ns = 0.
+Proof.
+  exists [mkNode 1 1 true false false true false true], 1, (mkNode 1 1 true false false true false true).
+  vm_compute. repeat split; try reflexivity. left. reflexivity.
+Qed.
+
+Lemma disrupting_counts_counted_l p ns :
+  disrupting p ns =
+  zlen (filter (fun x => (n_managed x && n_init x && negb (n_term x)) && (n_pool x =? p) &&
+                         (negb (n_ready x) || n_marked x || n_deleting x)) ns).
+Proof. reflexivity. Qed.
+
 (* ---- the oracle is the spec: boolean reflection, given what the matcher reports ---- *)
 Section Reflect.
 Variable sid : Type.
